@@ -82,6 +82,7 @@ func (mw *msgWriter) ensureFlate() {
 
 	if mw.flateWriter == nil {
 		mw.flateWriter = getFlateWriter(mw.trimWriter)
+		mw.c.vObj("PoolGet", "fw", mw.flateWriter)
 	}
 	mw.flate = true
 }
@@ -131,6 +132,7 @@ func (mw *msgWriter) reset(ctx context.Context, typ MessageType) error {
 	mw.opcode = opcode(typ)
 	mw.flate = false
 	mw.closed = false
+	mw.c.vEv("MwReset", int64(typ), vCtxID(ctx), 0, 0)
 
 	mw.trimWriter.reset()
 
@@ -139,6 +141,7 @@ func (mw *msgWriter) reset(ctx context.Context, typ MessageType) error {
 
 func (mw *msgWriter) putFlateWriter() {
 	if mw.flateWriter != nil {
+		mw.c.vObj("PoolPut", "fw", mw.flateWriter)
 		putFlateWriter(mw.flateWriter)
 		mw.flateWriter = nil
 	}
@@ -170,7 +173,10 @@ func (mw *msgWriter) Write(p []byte) (_ int, err error) {
 		}
 	}
 
+	mw.c.vEv("MwWrite", int64(len(p)), vB(mw.flate), int64(mw.opcode), 0)
 	if mw.flate {
+		mw.c.vObj("UseBegin", "fw", mw.flateWriter)
+		defer mw.c.vObj("UseEnd", "fw", mw.flateWriter)
 		return mw.flateWriter.Write(p)
 	}
 
@@ -200,9 +206,12 @@ func (mw *msgWriter) Close() (err error) {
 		return errors.New("writer already closed")
 	}
 	mw.closed = true
+	mw.c.vEv("MwClose", vB(mw.flate), 0, 0, 0)
 
 	if mw.flate {
+		mw.c.vObj("UseBegin", "fw", mw.flateWriter)
 		err = mw.flateWriter.Flush()
+		mw.c.vObj("UseEnd", "fw", mw.flateWriter)
 		if err != nil {
 			return fmt.Errorf("failed to flush flate: %w", err)
 		}
@@ -221,8 +230,10 @@ func (mw *msgWriter) Close() (err error) {
 }
 
 func (mw *msgWriter) close() {
+	mw.c.vEv("MwCloseConn", 0, 0, 0, 0)
 	if mw.c.client {
 		mw.c.writeFrameMu.forceLock()
+		mw.c.vObj("PoolPut", "bw", mw.c.bw)
 		putBufioWriter(mw.c.bw)
 	}
 
@@ -248,12 +259,16 @@ func (c *Conn) writeFrame(ctx context.Context, fin bool, flate bool, opcode opco
 		return 0, err
 	}
 	defer c.writeFrameMu.unlock()
+	defer func() { c.vErr("WfRet", err, int64(opcode)) }()
+	c.vEv("WfLocked", int64(opcode), vB(fin)|vB(flate)<<1, int64(len(p)), vCtxID(ctx))
 
 	select {
 	case <-c.closed:
+		c.vEv("WfArmFail", 0, 0, 0, 0)
 		return 0, net.ErrClosed
 	case c.writeTimeout <- ctx:
 	}
+	c.vEv("WfArm", vCtxID(ctx), 0, 0, 0)
 
 	defer func() {
 		if err != nil {
@@ -291,26 +306,31 @@ func (c *Conn) writeFrame(ctx context.Context, fin bool, flate bool, opcode opco
 		return 0, err
 	}
 
+	c.vHdr("WfHeader", c.writeHeader)
 	n, err := c.writeFramePayload(p)
 	if err != nil {
 		return n, err
 	}
+	c.vEv("WfPayload", int64(n), 0, 0, 0)
 
 	if c.writeHeader.fin {
 		err = c.bw.Flush()
 		if err != nil {
 			return n, fmt.Errorf("failed to flush: %w", err)
 		}
+		c.vEv("WfFlushed", 0, 0, 0, 0)
 	}
 
 	select {
 	case <-c.closed:
+		c.vEv("WfDisarmClosed", 0, 0, 0, 0)
 		if opcode == opClose {
 			return n, nil
 		}
 		return n, net.ErrClosed
 	case c.writeTimeout <- context.Background():
 	}
+	c.vEv("WfDisarm", 0, 0, 0, 0)
 
 	return n, nil
 }
